@@ -41,7 +41,7 @@ class C04(Prop):
     k2_frames = 40
     num = 4
     regions = {'quick': [('core', 100), ('block', 140), ('routers', 40), ('renege', 40), ('sched', 60), ('sched_block', 60),
-                         ('preempt', 50), ('schedpre', 40), ('dyn', 30), ('all', 40)]}
+                         ('preempt', 50), ('schedpre', 40), ('dyn', 30), ('all', 40), ('spf', 30), ('spf_sched', 50), ('spf_block', 30), ('sched_split', 70), ('core_split', 30)]}
     rule = ('one case = one observed run; non-trivial = some server served >= 3 customers and one of them was blocked for a '
             'positive time; distinct = distinct configuration hashes')
     clause_text = {30: 'server/customer attachment is not a bijection, busy flag wrong, or on-duty count != c',
@@ -62,27 +62,49 @@ class C04(Prop):
                         and e[3]['server_id'] >= 1 and e[1] in nodes and isinstance(e[3]['service_start_date'], int):
                     recs.append([e[1], e[3]['server_id'], e[3]['service_start_date'], e[3]['exit_date']])
         fins = []
-        run = cfg['run']
+        runs = cfg['run'] if isinstance(cfg['run'][0], list) else [cfg['run']]
+        run = runs[-1] if all(r[0] == 'time' for r in runs) else ['other']
         pre = cfg.get('preempt') and any(cfg['preempt'])
         if (run[0] == 'time' and not tr.exc and not tr.stopped and getattr(tr, 'run_ends', None) and not pre):
             T = run[1]
             fin = tr.run_ends[-1]['final']
             utils = tr.run_ends[-1]['util']
+            gone = {}
+            for f in tr.frames:
+                for e in f['cev']:
+                    if e[0] == 'ServerGone':
+                        gone.setdefault(e[1], []).append(e[2:])
             for j in nodes:
                 s = cfg['servers'][j - 1]
-                if not isinstance(s, int) or s < 1:
+                sched = isinstance(s, dict) and s['kind'] == 'sched' and not s.get('pre')
+                if not ((isinstance(s, int) and s >= 1) or sched):
                     continue
                 n = fin['nodes'][j - 1]
                 sv = []
-                for x in n['servers']:
+                ok = True
+                # servers that went off duty for good: their books as filed at that instant
+                for (sid, st, bt, tt, at) in gone.get(j, []):
+                    if not all(isinstance(x, int) for x in (sid, st, bt, tt, at)):
+                        ok = False
+                        break
+                    sv.append([sid, st, bt, tt, 0, at])
+                for x in (n['servers'] or []):
                     partial = 0
                     if x['busy'] and x['cust'] is not None:
                         st = fin['inds'][x['cust']]['service_start_date']
                         partial = T - st if isinstance(st, int) else -1
-                    sv.append([x['id'], x['start'], x['busy_time'], x['total_time'] if x['total_time'] is not None else -1, partial])
+                    if not isinstance(x['start'], int) or not isinstance(x['busy_time'], int):
+                        ok = False
+                        break
+                    sv.append([x['id'], x['start'], x['busy_time'], x['total_time'] if isinstance(x['total_time'], int) else -1, partial, T])
+                if not ok:
+                    continue
                 bs = sum(x[2] for x in sv)
                 ts = sum(x[3] for x in sv)
                 u = utils[j - 1]
+                if sched and (n.get('all_busy') is not None) and (sum(n['all_busy']) + sum(x['busy_time'] for x in n['servers']) != bs
+                                                                  or sum(n['all_total']) + sum(x['total_time'] for x in n['servers']) != ts):
+                    bs = -1     # what the node filed differs from the servers' own books
                 # the reported float must be exactly the quotient of the exact sums (dyadic grid => exact)
                 if u is None or (ts > 0 and u[2] is not None and u[2] == (bs / SCALE) / (ts / SCALE)) or (ts <= 0 and u[2] is None):
                     fins.append([j, T, sv, bs, ts])
